@@ -8,5 +8,8 @@ func main() {
 		vlib.Group{Name: "quad", Gen: genQuad},
 		vlib.Group{Name: "dgemm", Gen: genDgemm},
 		vlib.Group{Name: "fd", Gen: genFD},
+		vlib.Group{Name: "minimize", Gen: genMinimize},
+		vlib.Group{Name: "pools", Gen: genPools},
+		vlib.Group{Name: "lazy", Gen: genLazy},
 	)
 }
